@@ -38,6 +38,10 @@ def run(ctx, rep):
     rep.rule("S4", "equality projections: State sets coefficient 0 on a deep copy; Gate sets row 0 to e0 on a deep copy; Povm computes "
                    "vec - mean + c with mean = sum/m; MProcess subtracts (sum of first rows - e0)/m from every first row; object- and "
                    "variable-level siblings compute the same form", floor=8)
+    rep.rule("S5", "an option resolved against the object's own value (`if p is None: p = self._p`, `p = self.p if p is None else p`) is "
+                   "used in its resolved form everywhere below, including inside the projection closures handed to the optimisers: "
+                   "re-reading self.p there discards the caller's override (e.g. the parametrisation flag of the variable vector)", floor=12)
+    _s5(ctx, rep)
     # ---------------------------------------------------------------- S1 / S2
     sites = []
     for kind, cq in TYPES.items():
@@ -235,3 +239,37 @@ def _s4(ctx, rep):
                 rep.violation("S4", f, "MProcess.%s works on a copy" % meth, "the list whose rows are written is %s, not a copy" % unparse(v), node=d)
     rep.check(len(set(forms)) == 1, "S4", TYPES["mprocess"] + ".calc_proj_eq_constraint", "MProcess sibling forms", "object- and variable-level forms agree",
               "forms differ: %s" % forms, file="quara/objects/mprocess.py", line=1)
+
+
+
+# ------------------------------------------------------------------------------ S5
+def _s5(ctx, rep):
+    for f in ctx.ix.funcs.values():
+        if not f.module.name.startswith("quara.objects") or f.parent is not None:
+            continue
+        resolved = []          # (parameter, attribute, resolving statement)
+        for st in own_nodes(f.node):
+            if isinstance(st, ast.If) and isinstance(st.test, ast.Compare) and len(st.test.ops) == 1 and isinstance(st.test.ops[0], ast.Is) \
+                    and isinstance(st.test.left, ast.Name) and st.test.left.id in f.params and isinstance(st.test.comparators[0], ast.Constant) \
+                    and st.test.comparators[0].value is None and len(st.body) == 1 and not st.orelse and isinstance(st.body[0], ast.Assign) \
+                    and unparse(st.body[0].targets[0]) == st.test.left.id and isinstance(st.body[0].value, ast.Attribute) \
+                    and unparse(st.body[0].value.value) == "self":
+                resolved.append((st.test.left.id, st.body[0].value.attr, st))
+            elif isinstance(st, ast.Assign) and len(st.targets) == 1 and isinstance(st.targets[0], ast.Name) and isinstance(st.value, ast.IfExp):
+                t = st.value.test
+                if isinstance(t, ast.Compare) and len(t.ops) == 1 and isinstance(t.left, ast.Name) and t.left.id in f.params \
+                        and isinstance(t.comparators[0], ast.Constant) and t.comparators[0].value is None and isinstance(t.ops[0], (ast.Is, ast.IsNot)):
+                    alt = st.value.body if isinstance(t.ops[0], ast.Is) else st.value.orelse
+                    if isinstance(alt, ast.Attribute) and unparse(alt.value) == "self":
+                        resolved.append((t.left.id, alt.attr, st))
+        for p, attr, st in resolved:
+            names = {attr, attr.lstrip("_"), "_" + attr.lstrip("_")}
+            inside = {id(x) for x in ast.walk(st)}
+            hits = [x for x in ast.walk(f.node) if isinstance(x, ast.Attribute) and x.attr in names and isinstance(x.ctx, ast.Load)
+                    and unparse(x.value) == "self" and id(x) not in inside and getattr(x, "lineno", 0) > st.lineno]
+            con = "option %s of %s" % (p, f.name)
+            if hits:
+                rep.violation("S5", f, con, "`%s` is resolved against self.%s at line %d, but line %d reads self.%s again: on that path the "
+                              "caller's value of `%s` is ignored" % (p, attr, st.lineno, hits[0].lineno, hits[0].attr, p), node=hits[0])
+            else:
+                rep.holds("S5", f, con, "only the resolved local is used below", node=st)
